@@ -19,11 +19,10 @@ def handle (line : String) : String :=
     | .err => "err"
     | .panic => "panic"
     | .ok k =>
-      -- the flat-memory model (L1) must agree with the block-level model (L2, proved = RFC 7914)
-      if scryptSpec false pw salt n.toNat r.toNat p.toNat keyLen.toNat != some k then "model-split"
-      else match o.get? "want" with
-        | none => s!"ok {toHex k}"
-        | some w => if ofHex w == some k then s!"ok {toHex k}" else s!"kat-mismatch {toHex k}"
+      -- (the flat-memory model is proved equal to RFC 7914: XC.C16.scrypt_key_eq_rfc7914)
+      match o.get? "want" with
+      | none => s!"ok {toHex k}"
+      | some w => if ofHex w == some k then s!"ok {toHex k}" else s!"kat-mismatch {toHex k}"
   | _, _, _, _, _, _ => "bad-op"
 
 end XC.C16
